@@ -30,7 +30,19 @@ GhostNext(k, e, s, t, g) ==
       ds == CommittedDenoms(s) \cup CommittedDenoms(t)
       drift == [d \in ds \cup DOMAIN g.c12drift |->
                   Drift12(g, d) ++ ((TotalCommitted(t, d) -- TotalCommitted(s, d)) -- (SumCommitted(t, d) -- SumCommitted(s, d)))]
-  IN [g EXCEPT !.donated = don1, !.c12drift = drift]
+      \* the specification's lock ledger: every mint of oracle-pool shares is locked for an hour; expired entries are
+      \* dropped when the account next uncommits; a leveraged-LP force close (liquidation) overrides and clears the locks
+      now == t.chain.t
+      forceClose == k = "Begin" \/ (k = "Tx" /\ e.name = "leveragelp.MsgClosePositions")
+      pairs == LockPairs(s) \cup LockPairs(t) \cup DOMAIN g.locks
+      locks == [x \in pairs |->
+                  LET inc == Committed(t, x[1], x[2]) -- Committed(s, x[1], x[2])
+                      old == GLocks(g, x[1], x[2]) IN
+                  IF inc \succ Zero THEN Append(old, [amt |-> inc, until |-> now + LockSeconds])
+                  ELSE IF inc \prec Zero THEN
+                         (IF forceClose /\ x[1] \in CommitAccts(s) /\ s.commit.acct[x[1]].kind = "levpos" THEN << >> ELSE LiveLocks(old, now))
+                  ELSE old]
+  IN [g EXCEPT !.donated = don1, !.c12drift = drift, !.locks = locks]
 
 -----------------------------------------------------------------------------
 (* C15 — supply rules, on every event *)
@@ -86,11 +98,22 @@ C12StepChecks(k, e, s, t, g) ==
                     /\ \E i \in DOMAIN Lockups(s, a, d) :
                           /\ Lockups(s, a, d)[i].until > now
                           /\ ~\E j \in DOMAIN Lockups(t, a, d) : Lockups(t, a, d)[j] = Lockups(s, a, d)[i]}
+      g2 == GhostNext(k, e, s, t, g)
+      pairs == LockPairs(s) \cup LockPairs(t)
+      \* tokens under a live lock (by the specification's ledger) were not withdrawn by a non-liquidation step
+      badWithdraw == {x \in pairs : /\ Committed(t, x[1], x[2]) \prec Committed(s, x[1], x[2])
+                                    /\ ~(forceClose /\ x[1] \in CommitAccts(s) /\ s.commit.acct[x[1]].kind = "levpos")
+                                    /\ Committed(t, x[1], x[2]) \prec LockedSum(GLocks(g, x[1], x[2]), now)}
+      \* the implementation's recorded live lock-ups agree with the specification's ledger
+      badLedger == {x \in pairs : LockedSum(Lockups(t, x[1], x[2]), now) # LockedSum(GLocks(g2, x[1], x[2]), now)}
   IN { ChkK("C12", "C12.step.total_tracks_accounts", \E d \in ds : Inc(d) # Zero \/ Dec(d) # Zero, bad = {}, Bad(bad),
             IF bad # {} /\ bad = kf1 THEN "C12-uncommit-adds-to-total"
             ELSE IF bad # {} /\ bad = kf2 THEN "C12-edenb-burn-skips-total" ELSE ""),
        Chk("C12", "C12.step.live_lockups_preserved", \E a \in CommitAccts(s) : \E d \in DOMAIN s.commit.acct[a].committed : Lockups(s, a, d) # <<>>,
-           badLock = {}, Bad(badLock)) }
+           badLock = {}, Bad(badLock)),
+       Chk("C12", "C12.step.locked_tokens_not_withdrawn_before_expiry", \E x \in pairs : Committed(t, x[1], x[2]) \prec Committed(s, x[1], x[2]),
+           badWithdraw = {}, Bad(badWithdraw)),
+       Chk("C12", "C12.step.lock_ledger_matches_specification", pairs # {}, badLedger = {}, Bad(badLedger)) }
 
 -----------------------------------------------------------------------------
 (* C18 — transaction isolation: the ante handler moves only the fee; the state the   *)
@@ -125,8 +148,14 @@ JoinChecks(k, e, s, t, g) ==
            /\ t.amm.pools[p].shares -- s.amm.pools[p].shares = e.resp.shareOut
            /\ Committed(t, u, sd) -- Committed(s, u, sd) = e.resp.shareOut
            /\ e.resp.shareOut \succ Zero, ""),
+       \* the pool books exactly the response's tokens; the joiner pays them, less a weight-recovery bonus that can
+       \* only come out of the pool's rebalance treasury (oracle pools)
        Chk("C02", "C02.step.join_takes_response_tokens", TRUE,
-           \A d \in PoolAssets(s, p) : DBal(s, t, u, d) = Zero -- Get(e.resp.tokenIn, d, Zero), ""),
+           \A d \in PoolAssets(s, p) :
+              /\ Reserve(t, p, d) -- Reserve(s, p, d) = Get(e.resp.tokenIn, d, Zero)
+              /\ DBal(s, t, u, d) \succeq Zero -- Get(e.resp.tokenIn, d, Zero)
+              /\ DBal(s, t, u, d) ++ DBal(s, t, s.amm.pools[p].treasury, d) = Zero -- Get(e.resp.tokenIn, d, Zero)
+              /\ (DBal(s, t, s.amm.pools[p].treasury, d) # Zero => s.amm.pools[p].useOracle), ""),
        Chk("C05", "C05.step.join_within_max_in", TRUE,
            \A d \in DOMAIN e.resp.tokenIn : e.resp.tokenIn[d] \preceq Get(e.args.maxIn, d, Zero), "") }
 
@@ -289,10 +318,82 @@ KProductChecks(k, e, s, t, g) ==
   IN { Chk("C03", "C03.step.weighted_product_never_decreases", ps # {}, bad = {}, Bad(bad)) }
 
 -----------------------------------------------------------------------------
+(* C13 — step contracts of the reward accounting *)
+C13StepChecks(k, e, s, t, g) ==
+  LET keys == RewardKeys(s) \cup RewardKeys(t)
+      isClaim == TxOK(k, e, "masterchef.MsgClaimRewards")
+      \* accounts whose pending rewards this step may pay out (leaving only the sub-unit remainder)
+      MayClaim(a) == \/ isClaim /\ a = e.sender
+                     \/ /\ a \in CommitAccts(s) /\ s.commit.acct[a].kind = "levpos"
+                        /\ (k = "Begin" \/ (k = "Tx" /\ e.name \in {"leveragelp.MsgClaimRewards", "leveragelp.MsgClose", "leveragelp.MsgClosePositions", "leveragelp.MsgOpen"}))
+      badTx == {x \in keys : /\ ClaimableM(t, x) # ClaimableM(s, x)
+                             /\ ~(MayClaim(x[3]) /\ ClaimableM(t, x) = Zero)}   \* a claim pays the integer part and drops the sub-unit remainder
+      ds == (RewardDenoms(s) \cup RewardDenoms(t)) \ VirtualDenoms
+      Credited(d) == SumOver({x \in keys : x[2] = d}, LAMBDA x : ClaimableM(t, x) -- ClaimableM(s, x))
+      \* external incentives active in this block were funded in advance: their per-block amount is part of "funded for that block"
+      Funded(d) == SumOver({i \in DOMAIN s.mc.incentives : s.mc.incentives[i].denom = d /\ s.mc.incentives[i].from < t.chain.h /\ t.chain.h <= s.mc.incentives[i].to},
+                           LAMBDA i : s.mc.incentives[i].perBlock)
+      badEnd == {d \in ds : Credited(d) \succ (DBal(s, t, "mod:masterchef", d) ++ Funded(d)) ** E18}
+      paid(d) == SumOver({x \in RewardKeys(s) : x[2] = d /\ x[3] = e.sender /\ ClaimableM(t, x) # ClaimableM(s, x)}, LAMBDA x : ClaimableM(s, x) // E18)
+      badPay == {d \in ds : DBal(s, t, e.sender, d) # paid(d) \/ DBal(s, t, "mod:masterchef", d) # Zero -- paid(d)}
+  IN (IF k \in {"Tx", "Begin", "Ante", "PreEnd"} THEN
+        { Chk("C13", "C13.step.only_distribution_changes_credited_rewards", keys # {}, badTx = {}, Bad(badTx)) }
+      ELSE {})
+     \cup
+     (IF k = "End" THEN
+        { Chk("C13", "C13.step.block_credit_within_collected_or_funded", keys # {}, badEnd = {},
+              IF badEnd = {} THEN "" ELSE ToString({<<d, Credited(d), DBal(s, t, "mod:masterchef", d), Funded(d)>> : d \in badEnd})) }
+      ELSE {})
+     \cup
+     (IF IsTx(k, e, "masterchef.MsgClaimRewards") THEN
+        { Chk("C13", "C13.step.claim_always_succeeds", TRUE, e.ok, e.log) }
+      ELSE {})
+     \cup
+     (IF isClaim THEN
+        { Chk("C13", "C13.step.claim_pays_exactly_the_credited_amount", TRUE, badPay = {}, Bad(badPay)) }
+      ELSE {})
+
+-----------------------------------------------------------------------------
+(* C07 — vault shares are issued / redeemed at the fair rate; lending is capped at 90 % *)
+C07StepChecks(k, e, s, t, g) ==
+  LET sh == s.stable.shareDenom
+      S0 == Supply(s, sh)  S1 == Supply(t, sh)
+      TV0 == s.stable.totalValue  TV1 == t.stable.totalValue
+      Value(TV, S, n) == (n ** TV) // S
+      \* "one share's worth": ceil(rate), at least 1
+      Worth == IF S0 \succ Zero /\ S1 \succ Zero THEN MaxN(MaxN((TV0 ++ S0 -- One) // S0, (TV1 ++ S1 -- One) // S1), One) ELSE One
+      holders == {a \in CommitAccts(s) : Committed(s, a, sh) \succ Zero /\ Committed(t, a, sh) = Committed(s, a, sh)}
+      badVal == {a \in holders : Value(TV1, S1, Committed(s, a, sh)) \prec Value(TV0, S0, Committed(s, a, sh)) -- Worth}
+      accrued == SumOver(Debtors(s) \cup Debtors(t), LAMBDA a :
+                    (IF a \in Debtors(t) THEN t.stable.debts[a].stacked ELSE Zero) -- (IF a \in Debtors(s) THEN s.stable.debts[a].stacked ELSE Zero))
+      lent == SumPrincipal(t) \succ SumPrincipal(s)
+      m == S1 -- S0
+      pay == DBal(s, t, e.sender, s.stable.depositDenom)
+  IN (IF S0 \succ Zero /\ S1 \succ Zero THEN
+        { Chk("C07", "C07.step.redemption_value_of_other_lenders_never_falls", holders # {}, badVal = {}, Bad(badVal)) }
+      ELSE {})
+     \cup
+     (IF TxOK(k, e, "stablestake.MsgBond") THEN
+        { Chk("C07", "C07.step.bond_issues_no_more_than_fair_shares", TRUE,
+              IF S0 = Zero THEN m = e.args.amt ELSE (m -- One) ** TV0 \preceq e.args.amt ** S0, Str(m)) }
+      ELSE {})
+     \cup
+     (IF TxOK(k, e, "stablestake.MsgUnbond") THEN
+        { Chk("C07", "C07.step.unbond_pays_no_more_than_fair_value", TRUE,
+              (pay -- One) ** S0 \preceq e.args.shares ** TV0, Str(pay)) }
+      ELSE {})
+     \cup
+     (IF lent THEN
+        { Chk("C07", "C07.step.loans_capped_at_90_percent_of_vault_value", TRUE,
+              \* as the code checks it: against the vault value before the interest accrued by this very step
+              ((TV1 -- accrued) -- VaultCash(t)) ** N(10) \preceq (TV1 -- accrued) ** N(9), "") }
+      ELSE {})
+
+-----------------------------------------------------------------------------
 LedgerChecks(k, e, s, t, g) ==
   JoinChecks(k, e, s, t, g) \cup ExitChecks(k, e, s, t, g) \cup ShareMoveChecks(k, e, s, t, g) \cup BondChecks(k, e, s, t, g)
 
 StepChecks(k, e, s, t, g) ==
   C15StepChecks(k, e, s, t, g) \cup C12StepChecks(k, e, s, t, g) \cup C18StepChecks(k, e, s, t, g) \cup LedgerChecks(k, e, s, t, g)
-    \cup PositionChecks(k, e, s, t, g) \cup KProductChecks(k, e, s, t, g)
+    \cup PositionChecks(k, e, s, t, g) \cup KProductChecks(k, e, s, t, g) \cup C13StepChecks(k, e, s, t, g) \cup C07StepChecks(k, e, s, t, g)
 =============================================================================
